@@ -900,3 +900,52 @@ func TestKnown_C20_Race_CtxReadVsStopWithContext(t *testing.T) {
 	_ = e.StopWithContext(context.Background(), StopOptions{})
 	<-done
 }
+
+type kStoppedHook struct {
+	noOpMetrics
+	mu      sync.Mutex
+	armed   bool
+	release chan struct{}
+}
+
+func (m *kStoppedHook) IncTransitions(labels prometheus.Labels) {
+	if labels["to_state"] != StateStopped {
+		return
+	}
+	m.mu.Lock()
+	defer m.mu.Unlock()
+	if m.armed {
+		m.armed = false
+		close(m.release)
+	}
+}
+
+// C20.no_new_run_under_a_waiting_stop: a Start that overlaps a Stop added to the wait group from a zero counter
+// while the stop's helper goroutine was in wg.Wait (pointed out by a sub-agent while seeding C20).
+// Run with -race; the race detector fails the test.
+func TestKnown_C20_Race_StartUnderWaitingStop(t *testing.T) {
+	for round := 0; round < 12; round++ {
+		hook := &kStoppedHook{release: make(chan struct{})}
+		cfg := kCfg()
+		cfg.Metrics = hook
+		e, _ := kElection(t, cfg)
+		if err := e.Start(context.Background()); err != nil {
+			t.Fatal(err)
+		}
+		WaitForLeader(t, e, true, 2*time.Second)
+		_ = e.Stop()
+		hook.mu.Lock()
+		hook.armed = true
+		hook.mu.Unlock()
+		restarted := make(chan error, 1)
+		go func() {
+			<-hook.release // the second Stop is inside its critical section
+			restarted <- e.Start(context.Background())
+		}()
+		_ = e.Stop()
+		if err := <-restarted; err != nil && err != ErrAlreadyStarted {
+			t.Fatalf("restart: %v", err)
+		}
+		_ = e.Stop()
+	}
+}
